@@ -1,9 +1,9 @@
 (* Extract/ExC17.v -- extraction for family c17 *)
 From Coq Require Import Extraction ExtrOcamlBasic ExtrOcamlString.
-From AT Require Import Num Vec Aff Farkas FM Equiv PTree Cells Abs Schema.
+From AT Require Import Num Vec Aff Farkas FM Equiv PTree Cells Abs Schema SchemaSpec.
 Extraction Blacklist List String Int.
 Extraction "model_c17.ml"
-  qc_of_float qz qfrac qleb qltb qeqb Qcplus Qcmult Qcopp Qcminus Qcdiv
+  qc_of_float qz qfrac qleb qltb qeqb qabs Qcplus Qcmult Qcopp Qcminus Qcdiv
   dot vadd vsub matvec veqb meqb
   apply acompose aff_eqb wf_affb outdim
   check_model check_farkas solve
@@ -11,9 +11,12 @@ Extraction "model_c17.ml"
   pieces tree_equiv check_cex out_eqb
   aget aset alen akeys abs_at abs_tree
   qnat half sixth three sc_sixth_f64
+  act_defined hard_tanh_defined
   partial_relu partial_leaky_relu partial_hard_tanh partial_hard_shrink partial_hard_shrink_closed
   partial_hard_sigmoid partial_threshold
   argmax argmax_defined class_characterization class_defined inf_norm inf_norm_defined
-  from_poly from_poly_res from_slice remove_axes slice_tree embed expand sc_isfree count_true
+  from_poly from_poly_res from_slice remove_axes ra_tree slice_tree embed expand sc_isfree count_true
   relu_def leaky_relu_def hard_tanh_def hard_shrink_def hard_sigmoid_def hard_sigmoid_textbook threshold_def
-  argmax_def class_def inf_norm_def in_polyb from_poly_def.
+  argmax_def class_def inf_norm_def in_polyb from_poly_def
+  htree relu_h leaky_relu_h hard_tanh_h hard_shrink_h hard_sigmoid_h threshold_h hsem
+  class_spec argmax_spec inf_norm_spec from_poly_spec restrict_tree.
